@@ -3,9 +3,10 @@
 (* OPCODE 11 run_mro *)
 (* OPCODE 12 run_defs *)
 (* OPCODE 13 run_spec *)
+(* OPCODE 14 run_cache *)
 From Coq Require Import ZArith List Bool Arith.
 Import ListNotations.
-From OvldV Require Import Model.Sx Model.Order Model.Ty Model.Codec Model.Resolve Spec.Dispatch.
+From OvldV Require Import Model.Sx Model.Order Model.Ty Model.Codec Model.Resolve Model.Cache Spec.Dispatch.
 
 (* method: (id (postypes...) ((name type)...) req (reqkw...) prio tie) *)
 Definition meth_of (s : sx) : meth :=
@@ -81,3 +82,20 @@ Definition run_spec (s : sx) : sx :=
                 end;
                 of_bool (chain_applicable (hsub h) ms k);
                 of_bool (static_ms ms && static_key k) ]) (sx_list (sx_arg 2 s))).
+
+(* (14 hier (methods...) (ops...)) with op = (0 caller key) [caller = -1: plain lookup] | (1 method):
+   the MultiTypeMap state machine; per op: (outcome resolved?) or (-1) for a registration *)
+Definition run_cache (s : sx) : sx :=
+  let h := hier_of (sx_arg 0 s) in
+  let ms := map meth_of (sx_list (sx_arg 1 s)) in
+  let ops := map (fun o =>
+                    match sx_z (sx_nth 0 o) with
+                    | 0%Z => CGet (mkQ (if Z.ltb (sx_z (sx_nth 1 o)) 0 then None else Some (sx_nat (sx_nth 1 o)))
+                                       (key_of (sx_nth 2 o)))
+                    | _ => CReg (meth_of (sx_nth 1 o))
+                    end) (sx_list (sx_arg 2 s)) in
+  L (map (fun x => match x with
+                   | Some (o, r) => L [of_outcome o; of_bool r]
+                   | None => L [A (-1)%Z]
+                   end)
+         (snd (crun (hsub h) (hhasm h) (hchk h) (hfresh h) (cinit ms) ops))).
